@@ -5,6 +5,7 @@ package main
 import (
 	"fmt"
 	"go/constant"
+	"go/token"
 	"go/types"
 	"math/big"
 	"strings"
@@ -631,6 +632,22 @@ func (e *Env) evalBin(n *CBin) V {
 			kk := new(big.Int).Add(k, big.NewInt(1))
 			if kk.Sign() > 0 && new(big.Int).And(kk, k).Sign() == 0 {
 				return mathV("(mod " + am + " " + kk.String() + ")")
+			}
+		}
+	}
+	// bit operations on machine integers: same translation as the code's own operators
+	if tok, ok := map[string]token.Token{"&": token.AND, "|": token.OR, "^": token.XOR, "&^": token.AND_NOT, "<<": token.SHL, ">>": token.SHR}[n.Op]; ok {
+		ta, tb := a.T, b.T
+		if a.Math && !b.Math {
+			ta = tb
+		}
+		if b.Math && !a.Math {
+			tb = ta
+		}
+		if _, _, okA := intInfo(ta); okA && ta != mathIntT {
+			if _, _, okB := intInfo(tb); okB && tb != mathIntT {
+				r := x.binop(nil2frame(), e.cur, tok, V{T: ta, S: am}, V{T: tb, S: bm}, ta, 0)
+				return r
 			}
 		}
 	}
